@@ -14,10 +14,13 @@ package c19
 import (
 	"context"
 	"fmt"
+	"os"
+	"runtime/debug"
 	"sort"
 	"strings"
 	"sync"
 	"sync/atomic"
+	"time"
 
 	"github.com/risor-io/risor"
 	"github.com/risor-io/risor/builtins"
@@ -339,6 +342,12 @@ func rank(what string) int {
 }
 
 func (c *collector) flush(r *ev.Run) {
+	t0 := time.Now()
+	defer func() {
+		if os.Getenv("VERIF_C19_TIMING") != "" {
+			fmt.Fprintf(os.Stderr, "c19 timing: flush %.1fs\n", time.Since(t0).Seconds())
+		}
+	}()
 	c.mu.Lock()
 	defer c.mu.Unlock()
 	sigs := make([]string, 0, len(c.m))
@@ -360,6 +369,9 @@ func (c *collector) flush(r *ev.Run) {
 }
 
 func Check(r *ev.Run, replay string) {
+	// tiny live heap + very high allocation rate: the default GC pacing runs thousands of cycles per second
+	// and serialises the 16 workers; let the heap grow to a few hundred MB instead
+	debug.SetGCPercent(2000)
 	defer col.flush(r)
 	table := buildTable()
 	if replay != "" {
@@ -376,13 +388,17 @@ func Check(r *ev.Run, replay string) {
 	if !discover(r, table) {
 		return
 	}
-	stride := 5
+	stride := 3
 	if r.Thorough() {
 		stride = 1
 	}
+	t0 := time.Now()
 	partW(r, table, stride)
+	if os.Getenv("VERIF_C19_TIMING") != "" {
+		fmt.Fprintf(os.Stderr, "c19 timing: partW %.1fs\n", time.Since(t0).Seconds())
+	}
 	partC(r, stride)
-	r.Set("rule", fmt.Sprintf("W: every function/method discovered on modules strings, strconv, math, bytes, base64, filepath, regexp (+regexp object), json.valid, string methods, byte_slice methods x ALL argument tuples over the per-parameter pools (strings %d values incl. invalid UTF-8, NUL, 300 x 'a'; ints %d incl. Min/MaxInt64; floats %d incl. NaN, +-Inf, -0, denormal; byte slices %d; bytes-like %d; string lists %d; numeric strings %d; paths %d; globs %d; regexp patterns %d; base64 inputs %d) for every accepted arity (up to 4 parameters), each through the object API and every %d-th (thorough: every) tuple through generated scripts; compared with the direct Go call (floats bit-wise, NaN==NaN). C: codecs base64/base32/hex/gzip/urlquery x all pool values, json x every value of depth <= 2 (lists/maps of width <= 2 over 34 scalars; quick: width 1 at depth 2); malformed = all strings of length <= 4 over {A,=,!,\\xff,%%,z} per codec as string and as byte_slice, plus codec-specific sets (json: length <= 4 over 10 JSON symbols; base32: length <= 8 over {A,7,=,!}; gzip: every prefix and every single-byte substitution of a valid stream); json codec vs json.marshal/unmarshal on all of those. distinct = distinct (target, expected result) pairs",
+	r.Set("rule", fmt.Sprintf("W: every function/method discovered on modules strings, strconv, math, bytes, base64, filepath, regexp (+regexp object), json.valid, string methods, byte_slice methods x ALL argument tuples over the per-parameter pools (strings %d values incl. invalid UTF-8, NUL, 300 x 'a'; ints %d incl. Min/MaxInt64; floats %d incl. NaN, +-Inf, -0, denormal; byte slices %d; bytes-like %d; string lists %d; numeric strings %d; paths %d; globs %d; regexp patterns %d; base64 inputs %d) for every accepted arity (up to 4 parameters), each through the object API and every %d-th (thorough: every) tuple through generated scripts; compared with the direct Go call (floats bit-wise, NaN==NaN). C: codecs base64/base32/hex/gzip/urlquery x all pool values, json x every value of depth <= 2 (lists/maps of width <= 2 over 34 scalars and, at depth 2, over the 2428 values of depth <= 1; quick: the second element at depth 2 ranges over the scalars only), object route all, script route all up to depth 1 and every 5th (thorough: 16th) at depth 2; malformed = all strings of length <= 4 over {A,=,!,\\xff,%%,z} per codec as string and as byte_slice, plus codec-specific sets (json: length <= 4 over 10 JSON symbols; base32: length <= 8 over {A,7,=,!}; gzip: every prefix and every single-byte substitution of a valid stream); json codec vs json.marshal/unmarshal on all of those. distinct = distinct (target, expected result) pairs",
 		len(poolS), len(poolI), len(poolF), len(poolB), len(poolBL), len(poolSL), len(poolNumStr), len(poolPath), len(poolGlob), len(poolPat), len(poolB64In), stride))
 }
 
@@ -564,7 +580,7 @@ func partW(r *ev.Run, table []*fn, stride int) {
 					wcase{"W", "script", c.f.target(), toks(c.a)}, obs, scExp[i].String())
 			}
 		}
-		if f.target() == "strings.replace_all" {
+		if f.target() == "strings.replace_all" && j.lo == 0 {
 			sampleOnce.Do(func() {
 				r.Sample(map[string]any{"part": "W", "route": "script", "script_head": ev.Clip(src, 300), "calls_in_script": len(sc)})
 			})
@@ -578,7 +594,7 @@ func partW(r *ev.Run, table []*fn, stride int) {
 	for _, t := range []struct {
 		target string
 		idx    int
-	}{{"strings.last_index", 17}, {"math.pow", 40}, {"regexp.object.find_all", 300}, {"byte_slice.replace", 1234}} {
+	}{{"strings.last_index", 71}, {"math.pow", 40}, {"regexp.object.find_all", 301}, {"byte_slice.replace", 1301}, {"strconv.parse_int", 2000}, {"filepath.rel", 100}} {
 		for _, f := range table {
 			if f.target() == t.target && t.idx < tupleCount(f) {
 				a := tuple(f, t.idx)
